@@ -2,12 +2,22 @@
 package main
 
 import (
+	"bytes"
+	"encoding/hex"
+	"fmt"
+	"math/big"
 	"os"
 	"reflect"
 	"runtime"
 	"strings"
 
+	"com.tuntun.rangers/node/src/common"
+	"com.tuntun.rangers/node/src/eth_crypto"
+	"com.tuntun.rangers/node/src/eth_tx"
+	"com.tuntun.rangers/node/src/storage/account"
 	"com.tuntun.rangers/node/src/storage/rlp"
+	"verif/harness/c08ext"
+	"verif/harness/hx"
 )
 
 // repoRoot: the source tree this binary's rlp package was compiled from.
@@ -20,4 +30,203 @@ func repoRoot() string {
 		return f[:i]
 	}
 	return "/repo"
+}
+
+// txValue: the decoded transaction as a value of the generated eth_tx.txdata descriptor (fields in
+// declaration order, the "-" field left out), read through the type's accessors.
+func txValue(tx *eth_tx.Transaction) string {
+	v, r, s := tx.RawSignatureValues()
+	to := "VNil"
+	if a := tx.To(); a != nil {
+		to = "VBytes (unhex " + hx.CoqHex(a[:]) + ")"
+	}
+	bn := func(b *big.Int) string {
+		if b == nil {
+			return "VNil"
+		}
+		return "VNum " + b.String()
+	}
+	return fmt.Sprintf("VList [VNum %d; %s; VNum %d; %s; %s; VBytes (unhex %s); %s; %s; %s]", tx.Nonce(), bn(tx.GasPrice()), tx.Gas(), to, bn(tx.Value()),
+		hx.CoqHex(tx.Data()), bn(v), bn(r), bn(s))
+}
+
+// genTier: (1) re-extract the descriptor table from the sources under test and hand it to the model
+// (compared with the committed coq/C08/Gen.v); (2) run the real types behind the generated descriptors
+// (account.Account, eth_tx.Transaction -> txdata, the signing tuples, the CreateAddress tuple) against
+// the codec model instantiated with the GENERATED descriptors.
+func genTier(a hx.Args, rng *hx.Rng, res *hx.Result, cc *hx.Cases, corpus [][]byte) {
+	root := repoRoot()
+	ext, err := c08ext.Scan(root)
+	if err != nil {
+		res.Violate("C08/gen:extract", "descriptor extractor fails on "+root+": "+err.Error(), root)
+		return
+	}
+	hint := "differs from coq/C08/Gen.v: regenerate (cd /verif/harness && go run ./cmd/c08 -gen /verif/coq/C08/Gen.v) and re-check the proofs"
+	cc.Add("CGenSites "+c08ext.CoqSites(ext), map[string]interface{}{"kind": "rlp call sites re-extracted from " + root, "hint": hint})
+	cc.Add("CGenTypes "+c08ext.CoqTypes(ext), map[string]interface{}{"kind": "type descriptors re-extracted from " + root, "hint": hint})
+	res.Note(fmt.Sprintf("generated descriptors: %d rlp call sites, %d types (source %s)", len(ext.Sites), len(ext.Types), root))
+	have := map[string]bool{}
+	for _, t := range ext.Types {
+		have[t.Name] = true
+	}
+	need := func(n string) bool {
+		if !have[n] {
+			res.Violate("C08/gen:missing", "the extractor no longer finds "+n+" (renamed or no longer serialised?): its correspondence cases cannot run", n)
+		}
+		return have[n]
+	}
+	// reflection vs go/types on the one exported generated struct
+	if need("account.Account") {
+		cc.Add("CGenReflect \"account.Account\" "+coqGty(reflect.TypeOf(account.Account{})), map[string]string{"kind": "reflect descriptor of account.Account vs generated"})
+	}
+	count := func(class string, id []byte) { res.Count("gen:"+class, "gen/"+class+string(id), true) }
+
+	// ---- account.Account ----
+	var accIn [][]byte
+	for i := 0; i < 150; i++ {
+		acc := account.Account{Nonce: rng.U64() >> uint(rng.Intn(64)), NFTSetDefinitionHash: genBytes(rng)}
+		copy(acc.Root[:], rng.Bytes(32))
+		if rng.Intn(4) == 0 {
+			acc.Root = [32]byte{}
+		}
+		if len(acc.NFTSetDefinitionHash) > 100 {
+			acc.NFTSetDefinitionHash = acc.NFTSetDefinitionHash[:3]
+		}
+		enc, err := rlp.EncodeToBytes(acc)
+		if err != nil {
+			res.Violate("C08/encode-error", err.Error(), "account.Account")
+			continue
+		}
+		if vs, ok := coqValueSafe(reflect.ValueOf(acc)); ok && have["account.Account"] {
+			cc.Add(fmt.Sprintf("CEncG \"account.Account\" (%s) (Some %s)", vs, hx.CoqHex(enc)), map[string]string{"type": "account.Account", "value": vs, "impl": hex.EncodeToString(enc)})
+		}
+		accIn = append(accIn, enc)
+		m := append([]byte{}, enc...)
+		m[rng.Intn(len(m))] = []byte{0x00, 0x80, 0xc0, 0x81, 0x01, 0xff, 0xa0, 0x9f}[rng.Intn(8)]
+		accIn = append(accIn, m, enc[:rng.Intn(len(enc))])
+	}
+	for i, b := range corpus {
+		if i%9 == 0 && len(b) <= 96 {
+			accIn = append(accIn, b)
+		}
+	}
+	for _, b := range accIn {
+		var acc account.Account
+		err, pan := safeDecode(b, &acc)
+		if pan != nil {
+			res.Violate("C08/panic:account.Account", fmt.Sprint(pan), hex.EncodeToString(b))
+			continue
+		}
+		obs := "None"
+		if err == nil {
+			obs = "(Some (" + coqValue(reflect.ValueOf(acc)) + "))"
+			if re, e2 := rlp.EncodeToBytes(acc); e2 != nil || !bytes.Equal(re, b) {
+				res.Violate("C08/canonical-typed:account.Account", "accepted bytes re-encode differently", map[string]string{"in": hex.EncodeToString(b), "re": hex.EncodeToString(re)})
+			}
+			count("account-accepted", b)
+		} else {
+			count("account-rejected", b)
+		}
+		if have["account.Account"] {
+			cc.Add(fmt.Sprintf("CDecG \"account.Account\" %s %s", hx.CoqHex(b), obs), map[string]string{"type": "account.Account", "input": hex.EncodeToString(b), "impl": obs})
+		}
+	}
+
+	// ---- eth_tx.Transaction (custom codec delegating to txdata) ----
+	var txIn [][]byte
+	chain := big.NewInt(int64(1 + rng.Intn(9000)))
+	for i := 0; i < 150; i++ {
+		var to common.Address
+		copy(to[:], rng.Bytes(20))
+		amount := new(big.Int).SetBytes(rng.Bytes(rng.Intn(14)))
+		price := new(big.Int).SetBytes(rng.Bytes(rng.Intn(6)))
+		data := genBytes(rng)
+		if len(data) > 80 {
+			data = data[:2]
+		}
+		var tx *eth_tx.Transaction
+		if rng.Intn(4) == 0 {
+			tx = eth_tx.NewContractCreation(rng.U64()>>uint(rng.Intn(64)), amount, rng.U64()>>40, price, data)
+		} else {
+			tx = eth_tx.NewTransaction(rng.U64()>>uint(rng.Intn(64)), to, amount, rng.U64()>>40, price, data)
+		}
+		enc, err := rlp.EncodeToBytes(tx)
+		if err != nil {
+			res.Violate("C08/encode-error", err.Error(), "eth_tx.Transaction")
+			continue
+		}
+		if have["eth_tx.txdata"] {
+			cc.Add(fmt.Sprintf("CEncG \"eth_tx.txdata\" (%s) (Some %s)", txValue(tx), hx.CoqHex(enc)), map[string]string{"type": "eth_tx.Transaction", "impl": hex.EncodeToString(enc)})
+		}
+		txIn = append(txIn, enc)
+		m := append([]byte{}, enc...)
+		m[rng.Intn(len(m))] = []byte{0x00, 0x80, 0xc0, 0x81, 0x01, 0xff, 0x94, 0x93}[rng.Intn(8)]
+		txIn = append(txIn, m, enc[:rng.Intn(len(enc))])
+
+		// the signing tuples: what the signers hash is the encoding of the tuple the model describes
+		nonce, gas := tx.Nonce(), tx.Gas()
+		tupF := []interface{}{nonce, tx.GasPrice(), gas, tx.To(), tx.Value(), tx.Data()}
+		tupE := append(append([]interface{}{}, tupF...), chain, uint(0), uint(0))
+		toV := "VNil"
+		if p := tx.To(); p != nil {
+			toV = "VBytes (unhex " + hx.CoqHex(p[:]) + ")"
+		}
+		front := fmt.Sprintf("VNum %d; VNum %s; VNum %d; %s; VNum %s; VBytes (unhex %s)", nonce, tx.GasPrice(), gas, toV, tx.Value(), hx.CoqHex(tx.Data()))
+		for _, tc := range []struct {
+			name string
+			tup  []interface{}
+			val  string
+			hash common.Hash
+		}{
+			{"eth_tx.tuple@(FrontierSigner).Hash#1", tupF, "VList [" + front + "]", eth_tx.FrontierSigner{}.Hash(tx)},
+			{"eth_tx.tuple@(EIP155Signer).Hash#1", tupE, fmt.Sprintf("VList [%s; VNum %s; VNum 0; VNum 0]", front, chain), eth_tx.NewEIP155Signer(chain).Hash(tx)},
+		} {
+			te, err := rlp.EncodeToBytes(tc.tup)
+			if err != nil {
+				res.Violate("C08/encode-error", err.Error(), tc.name)
+				continue
+			}
+			if h := eth_crypto.Keccak256(te); !bytes.Equal(h, tc.hash[:]) {
+				res.Violate("C08/gen:signing-tuple", "the signer's hash is not the hash of the tuple the extractor describes", map[string]string{"tuple": tc.name, "tx": hex.EncodeToString(enc)})
+			}
+			count("signing-tuple", te)
+			if need(tc.name) && i%2 == 0 {
+				cc.Add(fmt.Sprintf("CEncG %s (%s) (Some %s)", hx.CoqStr(tc.name), tc.val, hx.CoqHex(te)), map[string]string{"type": tc.name, "impl": hex.EncodeToString(te)})
+			}
+		}
+		// CreateAddress
+		ca, _ := rlp.EncodeToBytes([]interface{}{to, nonce})
+		if want := eth_crypto.CreateAddress(to, nonce); !bytes.Equal(eth_crypto.Keccak256(ca)[12:], want[:]) {
+			res.Violate("C08/gen:create-address-tuple", "CreateAddress does not hash the tuple the extractor describes", hex.EncodeToString(ca))
+		}
+		if need("eth_crypto.tuple@CreateAddress#1") && i%2 == 0 {
+			cc.Add(fmt.Sprintf("CEncG \"eth_crypto.tuple@CreateAddress#1\" (VList [VBytes (unhex %s); VNum %d]) (Some %s)", hx.CoqHex(to[:]), nonce, hx.CoqHex(ca)), map[string]string{"type": "CreateAddress tuple", "impl": hex.EncodeToString(ca)})
+		}
+	}
+	for i, b := range corpus {
+		if i%9 == 1 && len(b) <= 96 {
+			txIn = append(txIn, b)
+		}
+	}
+	for _, b := range txIn {
+		tx := new(eth_tx.Transaction)
+		err, pan := safeDecode(b, tx)
+		if pan != nil {
+			res.Violate("C08/panic:eth_tx.Transaction", fmt.Sprint(pan), hex.EncodeToString(b))
+			continue
+		}
+		obs := "None"
+		if err == nil {
+			obs = "(Some (" + txValue(tx) + "))"
+			if re, e2 := rlp.EncodeToBytes(tx); e2 != nil || !bytes.Equal(re, b) {
+				res.Violate("C08/canonical-typed:eth_tx.Transaction", "accepted bytes re-encode differently", map[string]string{"in": hex.EncodeToString(b), "re": hex.EncodeToString(re)})
+			}
+			count("tx-accepted", b)
+		} else {
+			count("tx-rejected", b)
+		}
+		if have["eth_tx.txdata"] {
+			cc.Add(fmt.Sprintf("CDecG \"eth_tx.txdata\" %s %s", hx.CoqHex(b), obs), map[string]string{"type": "eth_tx.Transaction", "input": hex.EncodeToString(b), "impl": obs})
+		}
+	}
 }
